@@ -226,12 +226,28 @@ class RpcFut:
 def boxed_future(fut):
     return Adt('Pin', None, {0: make_box(fut)})
 
+class CallTable:
+    """RPC calls keyed by a schedule-independent id (issuing task * 100 + per-task sequence number), iterated in id
+    order: two interleavings that differ only in the order in which independent tasks issued their calls reach the
+    same state."""
+    def __init__(self):
+        self.d = {}
+    def add(self, c):
+        self.d[c.cid] = c
+    def __getitem__(self, cid):
+        return self.d[cid]
+    def __iter__(self):
+        return iter([self.d[k] for k in sorted(self.d)])
+    def __len__(self):
+        return len(self.d)
+
 class NodeEnv:
     """Node model.  Harnesses configure it (faults, part budget, which transitions are offered)."""
     def __init__(self):
         self.datastore = {}           # key tuple -> [string value, generation]
         self.parts = []
-        self.calls = []
+        self.calls = CallTable()
+        self.call_seq = {}
         self.pays = []                # running pay commands: dicts
         self.height = 0
         self.node_id = pubkey_value(sym.var('local_node_id'))
@@ -267,8 +283,11 @@ class NodeEnv:
             req = args[1] if len(args) > 1 else None
             if isinstance(req, Ref):
                 req = clone_value(m, req.get())
-            c = Call(len(self.calls), method, req, None)
-            self.calls.append(c)
+            tid = sched(m).cur if m.st.sched is not None and m.st.sched.cur is not None else 99
+            k = self.call_seq.get(tid, 0)
+            self.call_seq[tid] = k + 1
+            c = Call(tid * 100 + k, method, req, None)
+            self.calls.add(c)
             return (boxed_future(RpcFut(c)),)
         return None
 
